@@ -237,7 +237,29 @@ def main(path):
         ns[vname] = decode(model.get(vname), decl, ns, log, guards_cb, vname)
         if vname in fixups:
             ns[vname] = ns[fixups[vname]](ns[vname])
+    # Text predicates over uninterpreted functions (canonical_ipv4/6): the solver's model assigns an arbitrary string to the
+    # host; replace it with a concrete canonical witness (derived from the model string, so distinct hosts stay distinct).
+    import re as _re
+    import zlib as _zlib
+    notes = []
+    for r in contract["requires"]:
+        m = _re.fullmatch(r"\s*canonical_ipv([46])\((\w+)\)\s*", r) if isinstance(r, str) else None
+        if m and isinstance(ns.get(m.group(2)), str):
+            try:
+                ok = eval(r, ns)  # noqa: S307
+            except Exception:  # noqa: BLE001
+                ok = False
+            if not ok:
+                h = _zlib.crc32(ns[m.group(2)].encode("utf-8", "surrogatepass"))
+                if m.group(1) == "4":
+                    w = f"{1 + h % 223}.{(h >> 8) % 256}.{(h >> 16) % 256}.{1 + (h >> 24) % 254}"
+                else:
+                    w = f"2001:db8::{1 + h % 65535:x}"
+                notes.append(f"{m.group(2)}: model string replaced by canonical witness {w!r}")
+                ns[m.group(2)] = w
     out = {"reproduced": False, "failed": [], "inputs": {k: repr(ns[k])[:200] for k in contract["vars"]}}
+    if notes:
+        out["notes"] = notes
     for r in contract["requires"]:
         try:
             ok = eval(r, ns)  # noqa: S307
